@@ -16,7 +16,7 @@ const rulePAIRText = "sibling agreement: writer and reader of a format use the s
 
 func callsIn(fn *ssa.Function, callee string) []ssa.CallInstruction {
 	var out []ssa.CallInstruction
-	for _, f := range withAnon(fn) {
+	for _, f := range region(fn) {
 		for _, c := range callInstrs(f) {
 			name := ""
 			if sc := c.Common().StaticCallee(); sc != nil {
@@ -230,6 +230,12 @@ func rulePAIRpar1(w *World, r *Report) {
 		r.bad("PAIR", "par1:coder-both-sides", "-", "encoder and decoder do not both construct the coder through reedsolomon.New")
 	}
 	pairPar1Reconstruct(w, r)
+	pairPar1UTF16(w, r)
+}
+
+// pairPar1UTF16: PAR1 names are converted with unicode/utf16 on both sides and sized per code unit.
+func pairPar1UTF16(w *World, r *Report) {
+	r.rule("PAIR", rulePAIRText)
 	// UTF-16 names
 	for _, p := range []struct{ fn, callee string }{{"par1.encodeUTF16LEString", "unicode/utf16.Encode"}, {"par1.decodeUTF16LEString", "unicode/utf16.Decode"}} {
 		fn := w.Fn(p.fn)
